@@ -194,3 +194,35 @@ def signal_case(sig):
     finally:
         subprocess.run(["pkill", "-9", "-f", str(root)], capture_output=True)
         shutil.rmtree(root, ignore_errors=True)
+
+
+def rerun_case():
+    """First experiment: the job x1 is configured to fail (Meta parameter) and does; second experiment: the same job
+    (same identifier) configured to succeed.  The second attempt runs with the parameters of the second configuration."""
+    root = Path(tempfile.mkdtemp(prefix="xvrr-", dir=os.environ.get("XV_SCRATCH_DISK", str(VERIF / ".work"))))
+    try:
+        wd, gates, log, cf = root / "ws", root / "gates", root / "body.ndjson", root / "count.json"
+        gates.mkdir()
+        for i in (1, 2, 3):
+            (gates / f"gate.x{i}").touch()
+        env = dict(os.environ, PYTHONPATH=f"{REPO_SRC}:{VERIF}")
+        env.pop("XPM_VERIF", None)
+        out = []
+        for attempt, extra in (("first", {"XV_FAILFIRST": "1", "XV_TAG": "one"}), ("second", {"XV_TAG": "two"})):
+            p = subprocess.run(["/venv/bin/python", "-W", "ignore", str(PROG), str(wd), str(gates), str(log), "0", str(cf)], env=dict(env, **extra),
+                               capture_output=True, text=True, cwd="/", timeout=300)
+            out.append(json.loads(cf.read_text())["states"] if cf.exists() else None)
+            if cf.exists():
+                cf.unlink()
+        tags = None
+        for f in wd.glob("jobs/*/*/params.json"):
+            pj = json.loads(f.read_text())
+            if pj["objects"][-1]["fields"].get("x") == 1:
+                tags = pj.get("tags")
+        body = [json.loads(l) for l in log.read_text().splitlines() if l.strip()] if log.exists() else []
+        return {"states": out, "tags_of_x1": tags, "x1": [sum(1 for e in body if e["p"] == "x1" and e["e"] == w) for w in ("begin", "fail", "end")]}
+    except subprocess.TimeoutExpired:
+        return {"problem": "an experiment of the re-run scenario does not finish"}
+    finally:
+        subprocess.run(["pkill", "-9", "-f", str(root)], capture_output=True)
+        shutil.rmtree(root, ignore_errors=True)
